@@ -722,6 +722,18 @@ class Effects:
                 if not cands:
                     return None
                 targets += cands
+            elif isinstance(v, ast.Call) and isinstance(v.func, ast.Attribute) and v.func.attr == "get" and isinstance(v.func.value, ast.Name) \
+                    and isinstance(fs.mod.toplevel_assign(v.func.value.id), ast.Dict) and len(v.args) in (1, 2) \
+                    and (len(v.args) == 1 or (isinstance(v.args[1], ast.Constant) and v.args[1].value is None)):
+                # TABLE.get(key): one of the functions stored in a module-level dispatch dict (or None)
+                d = fs.mod.toplevel_assign(v.func.value.id)
+                if all(isinstance(x, ast.Name) for x in d.values):
+                    for x in d.values:
+                        t = self._resolve_name(fs, x.id)
+                        if t:
+                            targets += t
+                else:
+                    return None
             elif isinstance(v, ast.Subscript) and isinstance(v.value, ast.Name):
                 d = fs.mod.toplevel_assign(v.value.id)
                 if isinstance(d, ast.Dict) and all(isinstance(x, ast.Name) for x in d.values):
